@@ -1,5 +1,6 @@
-CONSTANTS Parts = {"search", "special", "invoc", "pairs", "cycles", "data", "laws"}  ContentLen = 0  Slices = 4  Slice = 1
+CONSTANTS Parts = {"search", "special", "invoc", "pairs", "cycles", "data", "laws", "codefile"}  ContentLen = 0  Slices = 4  Slice = 1
 INIT Init
 NEXT Next
 INVARIANTS Inv Laws Emit
+PROPERTIES FirstWins
 CHECK_DEADLOCK FALSE
